@@ -1658,3 +1658,7 @@ impl<
         load!(migration_support, migration_support);
     }
 }
+
+#[cfg(all(aws_s2n_quic_verif, test))]
+#[path = "/verif/harness/core/tp.rs"]
+mod verif;
